@@ -194,11 +194,15 @@ def codeAction (s : Srv) (uri : Text) (line ch : Nat) : Option (List Action) :=
             let acts := Bump.bumpActions (readsOf s ⟨reg.toList, p.name⟩).versions p
             if acts.isEmpty then none else some acts
 
+/-- the packages of one registry the start-up refresh asks for: stale by the cache's CURRENT refresh interval -/
+def refreshDue (s : Srv) (reg : Text) : List Text :=
+  ((Cache.needingRefresh s.ccfg s.db s.now).filter (·.reg == reg)).map (·.name)
+
 /-- the start-up background refresh for one registry: stale, unmarked packages are claimed and requested -/
 def startRefresh (s : Srv) (reg : Text) : Srv :=
   if !s.store then s
   else
-    let due := ((Cache.needingRefresh s.ccfg s.db s.now).filter (·.reg == reg)).map (·.name)
+    let due := refreshDue s reg
     let (db', waiting) := claimAll s.db reg s.now due
     if waiting.isEmpty then { s with db := db' }
     else { s with db := db', tasks := s.tasks ++ [⟨none, reg, [], waiting, []⟩] }
